@@ -7,6 +7,8 @@ VERIF = os.path.dirname(os.path.abspath(__file__))
 
 # (property, obligation regex, witness name, kind)   kind: "public" (replay crate) | "private" (scratch copy + cfg(test) module)
 WITNESSES = [
+    ("C03", r"wire_decode/DomainName::deserialise/post:decoded_name_wf", "c03_compressed_name_over_255", "public"),
+    ("C16", r"wire_decode/DomainName::deserialise/post:decoded_name_wf", "c03_compressed_name_over_255", "public"),
     ("C04", r"wire_codec/WritableBuffer::memoise_name/post:pointer_addresses_offset_of_name", "c04_pointer_beyond_16k", "public"),
 ]
 
